@@ -125,14 +125,20 @@ class Ctx:
             raise AnalysisError(msg)
 
     # ---- finishing ----------------------------------------------------
-    def finish(self) -> int:
-        # vacuity guard
+    def finish(self, aborted: Optional[str] = None) -> int:
+        """aborted: message of an AnalysisError raised after some instances were recorded.  Violations already
+        established by recognised shapes are still reported (exit 1); otherwise the run is an analysis error (exit 2)."""
         per_rule: Dict[str, int] = {}
         for inst in self.instances:
             per_rule[inst['rule']] = per_rule.get(inst['rule'], 0) + 1
-        for rid, m in self.min_counts.items():
-            if per_rule.get(rid, 0) < m:
-                raise AnalysisError(f'vacuity guard: rule {rid} matched {per_rule.get(rid, 0)} instance(s), frozen minimum is {m}')
+        problems: List[str] = []
+        if aborted:
+            problems.append(aborted)
+        else:
+            # vacuity guard
+            for rid, m in self.min_counts.items():
+                if per_rule.get(rid, 0) < m:
+                    problems.append(f'vacuity guard: rule {rid} matched {per_rule.get(rid, 0)} instance(s), frozen minimum is {m}')
         for rid in per_rule:
             if rid not in self.rules:
                 raise AnalysisError(f'internal: instance recorded for undeclared rule {rid}')
@@ -178,6 +184,12 @@ class Ctx:
                 loc = f'{f.file}:{f.line}' if f.file else ''
                 print(f'  FAIL {f.rule} {loc} {f.construct}: {f.message}')
 
+        if problems and not new:
+            for pr in problems:
+                print(f'ANALYSIS-ERROR property={self.pid}: {pr}')
+            return 2
+        for pr in problems:
+            print(f'NOTE: analysis incomplete after the violation(s) above: {pr}')
         self._write_evidence(n_inst, distinct, per_rule, len(new), len(seen_known), wall)
 
         if new:
@@ -281,8 +293,11 @@ def run_property(pid: str, tier: str, fn: Callable[[Ctx], None]) -> int:
         fn(ctx)
         return ctx.finish()
     except AnalysisError as e:
-        print(f'ANALYSIS-ERROR property={pid}: {e}')
-        return 2
+        try:
+            return ctx.finish(aborted=str(e))
+        except AnalysisError as e2:
+            print(f'ANALYSIS-ERROR property={pid}: {e2}')
+            return 2
     except Exception:  # noqa: BLE001 - tracebacks must not look like violations
         traceback.print_exc()
         print(f'ANALYSIS-ERROR property={pid}: internal error in checker (traceback above)')
